@@ -9,6 +9,7 @@ import Zed.Proofs.VngPrimitive
 import Zed.Proofs.VngColumns
 import Zed.Proofs.VecLoad
 import Zed.Proofs.VecProject
+import Zed.Proofs.VecTop
 namespace Zed.Props.C03
 open Zed.Vng Zed.Generated.C03
 
@@ -243,25 +244,53 @@ theorem vec_leaf_correct (t : Ty) (id : Nat) (nn : List Val) (b : Bitmap) (F : L
       vecType v = t ∧ SlotSpec v F nn :=
   loadLeaf_spec t id nn b F hR hcnt hprim hE hnull
 
-/-- **vng_roundtrip_vectors_partial.**  Guard `flatTy t`: the type is built from primitive
-    types (all twenty, net included), records (nested arbitrarily, with nulls at every level) and named
-    types.  Then for every list of well-formed values the vector path yields, slot by slot,
-    the values that were written, with the right type and length — in particular every
-    child column's nulls are convolved with those of all enclosing records.
+/-- **vng_roundtrip_vectors_partial.**  Guard `seqOK vs` (Model/VecGuard.lean): for every
+    top-level type of the object, the column is outside the recorded defect classes — no enum
+    column, no union column with a null slot (a null union value, or a union below a record
+    column that contains a null), no error-typed column below a record column that contains a
+    null.  Then for EVERY sequence of well-formed typed values — any number of top-level
+    types interleaved in any order, records / arrays / sets / maps / unions / named / error
+    types nested arbitrarily, nulls at every level, any of the plain / dictionary / const
+    encodings — loading the object through the vector cache and materialising it yields the
+    identical sequence in the original order.
 
-    Full statement (all types) — FALSE of the current code, see `not_vng_roundtrip_vectors`;
-    arrays, sets, maps, unions and error types outside the known-broken classes are covered by
-    the model/code correspondence (`vecm`) only. -/
-theorem vng_roundtrip_vectors_partial (t : Ty) (hflat : flatTy t = true) (vs : List Val)
+    Full statement (no guard) — FALSE of the current code: `not_vng_roundtrip_vectors`. -/
+theorem vng_roundtrip_vectors_partial (vs : List (Ty × Val))
+    (hconf : ∀ p ∈ vs, conforms p.1 p.2 = true) (hok : seqOK vs = true) :
+    readVec [] (encTop vs) = some vs :=
+  readVec_encTop vs hconf hok
+
+/-- the same for one column (`okV t vs false`: the guard for a top-level column), with the
+    slot-wise statement. -/
+theorem vng_roundtrip_vectors_column (t : Ty) (vs : List Val)
+    (hconf : ∀ v ∈ vs, conforms t v = true) (hok : okV t vs false = true) :
+    ∃ v, load (enc t vs) none 0 none = some v ∧ vecType v = t ∧ v.len = vs.length ∧
+      (∀ i, i < vs.length → serialize v i = vs[i]?) ∧
+      materialize v = some (vs.map fun x => (t, x)) := by
+  obtain ⟨v, h1, h2, h3, _, _, h4, h5⟩ := load_top_all t vs hconf hok
+  exact ⟨v, h1, h2, h3, h4, h5⟩
+
+/-- … and below a chain of enclosing records whose flattened nulls are `Fp`: every child
+    column's nulls are convolved with those of all enclosing records (`LoadSpecG`). -/
+theorem vng_vectors_under_parent (t : Ty) : LoadSpecG t :=
+  loadSpec_all t
+
+/-- data-independent corollary: for types built from primitive types, records and named
+    types the guard always holds. -/
+theorem vng_roundtrip_vectors_flat (t : Ty) (hflat : flatTy t = true) (vs : List Val)
     (hconf : ∀ v ∈ vs, conforms t v = true) :
     ∃ v, load (enc t vs) none 0 none = some v ∧ vecType v = t ∧ v.len = vs.length ∧
       (∀ i, i < vs.length → serialize v i = vs[i]?) ∧
       materialize v = some (vs.map fun x => (t, x)) :=
   load_top_flat t hflat vs hconf
 
-/-- the same below a chain of enclosing records whose flattened nulls are `Fp`. -/
-theorem vng_vectors_under_parent (t : Ty) (hflat : flatTy t = true) : LoadSpec t :=
-  loadSpec_flat t hflat
+-- non-vacuity of the guard: arrays of records, a map, a union without null slots, an error
+example : seqOK
+    [(.array (.record (.cons [120] (.prim 9) .nil)), .cont (.cons (.cont (.cons (.prim [2]) .nil)) (.cons .null .nil))),
+     (.map (.prim 25) (.prim 9), .cont (.cons (.prim [107]) (.cons .null .nil))),
+     (.array (.record (.cons [120] (.prim 9) .nil)), .null),
+     (.union (.cons (.prim 9) (.cons (.prim 25) .nil)), .union 1 (.prim [115])),
+     (.error (.prim 25), .prim [101])] = true := by decide
 
 -- non-vacuity: a nested record type with a named field is in the fragment; a concrete run
 example : flatTy (.record (.cons [97] (.prim 9) (.cons [114] (.record (.cons [120] (.named [110] (.prim 25)) .nil)) .nil))) = true := by decide
@@ -317,20 +346,32 @@ theorem loader_walks_total :
 
 /-! ## Projection -/
 
-/-- **projection_sound_partial.**  Guard `flatTy t` (all primitive types, records, named types).  For every set of field paths (`mkProj` is `vcache.NewProjection`, with the code's
-    path-tree insertion) and every list of well-formed values, the projection of the loaded
-    vectors has the projected type and yields, slot by slot, exactly the data of the written
-    value at the requested paths (`projVal`: selected fields in path order, nested paths,
-    `error("missing")` for absent paths, null for a null record).
+/-- **projection_sound_partial.**  Guard `okV t vs false` (the column is outside the defect
+    classes above).  For every set of field paths (`mkProj` is `vcache.NewProjection`, with the
+    code's path-tree insertion) and every list of well-formed values of ANY type, the
+    projection of the loaded vectors has the projected type and yields, slot by slot, exactly
+    the data of the written value at the requested paths (`projVal` / `restrict`: selected
+    fields in path order, nested paths, `error("missing")` for absent paths and for leaves,
+    null for a null record, arrays / sets / maps / unions whole).
 
-    Full statement (all types) — FALSE of the current code: `not_projection_sound`. -/
-theorem projection_sound_partial (paths : List (List Bytes)) (t : Ty) (hflat : flatTy t = true)
-    (vs : List Val) (hconf : ∀ v ∈ vs, conforms t v = true) :
+    Full statement — FALSE of the current code: `not_projection_sound` (the loader, not the
+    projection, leaves a nil vector behind when a record below a container is projected). -/
+theorem projection_sound_partial (paths : List (List Bytes)) (t : Ty) (vs : List Val)
+    (hconf : ∀ v ∈ vs, conforms t v = true) (hok : okV t vs false = true) :
     ∃ v, load (enc t vs) none 0 none = some v ∧
       vecType (projVec (mkProj paths) v) = projTy (mkProj paths) t ∧
-      ∀ i, i < vs.length →
-        serialize (projVec (mkProj paths) v) i = (vs[i]?).map (projVal (mkProj paths) t) :=
-  projection_sound_flat paths t hflat vs hconf
+      (∀ i, i < vs.length →
+        serialize (projVec (mkProj paths) v) i = (vs[i]?).map (projVal (mkProj paths) t)) ∧
+      materialize (projVec (mkProj paths) v) = some (vs.map fun x => restrict paths (t, x)) :=
+  projection_sound_all paths t vs hconf hok
+
+/-- … through `Object.Fetch(paths)` + `Materializer`, when the projection does not hit the
+    partial-load defect (`projCrashes`, see `not_projection_sound`). -/
+theorem projection_read_partial (paths : List (List Bytes)) (t : Ty) (vs : List Val)
+    (hconf : ∀ v ∈ vs, conforms t v = true) (hok : okV t vs false = true)
+    (hpc : projCrashes (mkProj paths) (enc t vs) = false) :
+    readVec paths (.single (enc t vs)) = some (vs.map fun x => restrict paths (t, x)) :=
+  readVec_single paths t vs hconf hok hpc
 
 /-- **not_projection_sound**: a record below an array / set / map / union is loaded only at
     the projected fields but rebuilt with all of them: projecting `x` out of `[{x:1,y:2}]`
